@@ -59,6 +59,8 @@ def run(ctx):
     same_relation(ctx, g)
     ranges(ctx, g)
     quotient_shape(ctx, g)
+    decision_tables(ctx, g)
+    ctx.floor("chamber-indexed tables in morphism / minimal_image", chamber_tables(ctx, "T4-chamber-table", ctx.body("dsets::DSet::morphism"), g) + chamber_tables(ctx, "T4-chamber-table", ctx.body("derived::minimal_image"), g), 3)
     # morphism(other, img0) answers None for a base image that is not a chamber only because other.m(k, k + 1, img0) is None there;
     # fundamental_group's dummy ridge (0, 0, 0) relies on the same for covers
     from . import c02
@@ -134,6 +136,125 @@ def quotient_shape(ctx, g):
                 bad = "a chamber is numbered before its class has a number"
     ctx.ob("T9-quotient-shape", b.name, "class numbering", "ok" if not bad else "violation",
            "e = p.find(&d); new number iff src2img[e] == 0 (inverse stored); src2img[d] = src2img[e]; all chambers; next - 1 classes" if not bad else bad)
+
+
+def decision_tables(ctx, g):
+    """fold and morphism as decision procedures: which effect / answer is possible is decided from the path conditions, with the opaque tests
+    (degrees_match, find, the degree comparison, the table entry) set to every combination of outcomes.
+    fold(p0, d, e): None at once iff d == 0, e == 0 or the degrees of d and e differ; a popped pair is united - and its images looked at - iff its
+    two members are NOT yet in one class; images with matching degrees are queued, images with different degrees answer None.
+    morphism: a popped pair with different degrees answers None; an image chamber without an entry gets one and is queued; one whose entry
+    differs answers None; one whose entry agrees is left alone"""
+    ctx.clauses.append("fold / morphism decision tables: every combination of test outcomes leads to exactly the effects of the definition (T4, path conditions evaluated)")
+    b = ctx.body("dsets::DSet::fold")
+    me, d_, e_ = ("param", 1, b.debug.get(1, "")), ("param", 3, b.debug.get(3, "")), ("param", 4, b.debug.get(4, ""))
+    nones = {bi for bi, si, s in b.assigns() if s["place"]["l"] == 0 and not s["place"]["p"] and strip(norm(b.rv_origin(s["rv"]), g))[1].endswith("Option::None")}
+    somes = {bi for bi, si, s in b.assigns() if s["place"]["l"] == 0 and not s["place"]["p"] and strip(norm(b.rv_origin(s["rv"]), g))[1].endswith("Option::Some")}
+    unite = {bi for bi, t in b.calls("Partition::<T>::unite")}
+    push = {bi for bi, t in b.calls("VecDeque::<T, A>::push_back")}
+    bad = None
+    if not (nones and somes and len(unite) == 1 and len(push) == 1):
+        bad = "fold does not have None / Some answers, one unite and one push_back"
+    else:
+        top = ("call", "dsets::DSet::degrees_match", (me, d_, e_))
+
+        def val(case):
+            dv, ev, m0, same, m1 = case
+            def f(y):
+                if y == d_:
+                    return dv
+                if y == e_:
+                    return ev
+                if y[0] == "call" and y[1].endswith("DSet::degrees_match"):
+                    return m0 if (y[0], y[1], tuple(strip(z) for z in y[2])) == top else m1
+                if y[0] == "call" and y[1].endswith("Partition::<T>::find"):
+                    k = strip(y[2][1])
+                    return 1 if (k[0] == "field" and k[2] == "0") or same else 2
+                return None
+            return f
+        sites = nones | somes | unite | push
+        # (d, e, degrees of d,e match, popped pair already in one class, degrees of the images match) -> (None possible, unite, push, Some possible)
+        want = {(0, 2, 1, 0, 1): (True, False, False, False), (2, 0, 1, 0, 1): (True, False, False, False), (2, 3, 0, 0, 1): (True, False, False, False),
+                (2, 3, 1, 1, 1): (False, False, False, True), (2, 3, 1, 0, 1): (False, True, True, True), (2, 3, 1, 0, 0): (True, True, False, True)}
+        for case, w in want.items():
+            r = reachable_sites(b, g, sites, val(case))
+            got = (bool(r & nones), bool(r & unite), bool(r & push), bool(r & somes))
+            if got != w:
+                names = ("answers None", "unites the pair", "queues the images", "can answer Some(p)")
+                diff = [("%s%s" % ("" if g_ else "never ", n_)) for g_, w_, n_ in zip(got, w, names) if g_ != w_]
+                bad = "for d = %d, e = %d, degrees of (d, e) %s, popped pair %s, degrees of the images %s: fold %s" % (
+                    case[0], case[1], "equal" if case[2] else "different", "already in one class" if case[3] else "in different classes", "equal" if case[4] else "different", "; ".join(diff))
+                break
+    ctx.ob("T4-decision-table", b.name, "fold", "ok" if not bad else "violation", "6 combinations of test outcomes give the effects of the definition" if not bad else bad)
+    b = ctx.body("dsets::DSet::morphism")
+    ctx.scan(ctx.facts.with_closures(b.name))
+    nones = {bi for bi, si, s in b.assigns() if s["place"]["l"] == 0 and not s["place"]["p"] and strip(norm(b.rv_origin(s["rv"]), g))[1].endswith("Option::None")}
+    somes = {bi for bi, si, s in b.assigns() if s["place"]["l"] == 0 and not s["place"]["p"] and strip(norm(b.rv_origin(s["rv"]), g))[1].endswith("Option::Some")}
+    pushes = [(bi, strip(norm(b.origin(t["args"][1]), g))) for bi, t in b.calls("VecDeque::<T, A>::push_back")]
+    stores = []
+    for bi, si, s in b.assigns():
+        if [e["k"] for e in s["place"]["p"]] == ["deref"]:
+            tgt = strip(norm(b.local_origin(s["place"]["l"]), g))
+            if is_call(tgt, "IndexMut::index_mut"):
+                stores.append((bi, strip(tgt[2][1]), strip(norm(b.rv_origin(s["rv"]), g))))
+    bad = None
+    img0 = ("param", 3, b.debug.get(3, ""))
+    seed_store = [x for x in stores if eval_int(x[1]) == 1 and x[2] == img0]
+    seed_push = [x for x in pushes if x[1] == ("agg", "tuple", (("int", 1), img0))]
+    ext_push = [x for x in pushes if x not in seed_push]
+    ext_store = [x for x in stores if x not in seed_store]
+    if len(seed_store) != 1 or len(seed_push) != 1:
+        bad = "the search does not start from m[1] = img0 with the pair (1, img0) queued"
+    elif len(ext_push) != 1 or len(ext_store) != 1 or ext_push[0][1] != ("agg", "tuple", (ext_store[0][1], ext_store[0][2])):
+        bad = "a new image is not stored as m[di] = ei and queued as the pair (di, ei)"
+    else:
+        di, ei = ext_store[0][1], ext_store[0][2]
+        def val(case):
+            okdeg, mv, ev = case
+            def f(y):
+                if y[0] == "call" and (y[1].endswith("Iterator::all") or (y[1] in ctx.facts.bodies and contains(y, lambda z: z == ("param", 1, b.debug.get(1, ""))) and contains(y, lambda z: z == ("param", 2, b.debug.get(2, ""))))):
+                    return okdeg      # the degree comparison of the popped pair, inline or in a helper of the crate
+                a = as_index(y)
+                if a and strip(a[1]) == di:
+                    return mv
+                if y == ei:
+                    return ev
+                return None
+            return f
+        sites = nones | somes | {ext_push[0][0]}
+        want = {(0, 0, 3): (True, False), (1, 0, 3): (False, True), (1, 3, 3): (False, False), (1, 2, 3): (True, False)}
+        for case, w in want.items():
+            r = reachable_sites(b, g, nones | {ext_push[0][0]}, val(case))
+            got = (bool(r & nones), ext_push[0][0] in r)
+            if got != w:
+                bad = "degrees of the popped pair %s, m[di] = %d, ei = %d: morphism %s" % ("equal" if case[0] else "different", case[1], case[2],
+                      "; ".join(n_ if g_ else "does not " + n_ for g_, w_, n_ in zip(got, w, ("answer None", "record and queue the image")) if g_ != w_))
+                break
+        if not bad:
+            # the degree test itself: every adjacent pair, self at d against other at e
+            alls = list(b.calls("Iterator::all"))
+            hb = b
+            if not alls:
+                # moved into a helper: the crate function called with both symbols whose result decides the first None
+                for bi_, t_ in b.calls():
+                    nm_ = t_["callee"].get("def", "")
+                    if nm_ in ctx.facts.bodies and nm_ != b.name and list(ctx.facts.bodies[nm_].calls("Iterator::all")):
+                        hb = ctx.facts.bodies[nm_]
+                        ctx.scan(ctx.facts.with_closures(hb.name))
+                        alls = list(hb.calls("Iterator::all"))
+                        break
+            res = closure_result(ctx.facts, hb.origin(alls[0][1]["args"][1]), g) if len(alls) == 1 else None
+            res = unov_deep(strip(res)) if res is not None else None
+            k_ = ("param", 2, "")
+            okq = res is not None and res[0] == "call" and res[1].endswith("PartialEq::eq") or (res is not None and res[0] == "binop" and res[1] == "Eq")
+            if okq:
+                l_, r_ = (strip(res[2][0]), strip(res[2][1])) if res[0] == "call" else (strip(res[2]), strip(res[3]))
+                def deg(t_, who):
+                    return is_call(t_, "DSet::m") and strip(t_[2][0])[0] in ("param", "field", "deref") and unov_deep(strip(t_[2][2])) == ("binop", "Add", strip(t_[2][1]), ("int", 1))
+                okq = deg(l_, 0) and deg(r_, 1) and strip(l_[2][1]) == strip(r_[2][1]) and strip(l_[2][0]) != strip(r_[2][0]) and strip(l_[2][3]) != strip(r_[2][3])
+            if not okq:
+                bad = "the degree test is not self.m(k, k + 1, d) == other.m(k, k + 1, e) for every k: %s" % (show(res, 1)[:90] if res else None)
+    ctx.ob("T4-decision-table", b.name, "morphism", "ok" if not bad else "violation", "seeded with (1, img0); 4 combinations of test outcomes give the effects of the definition; degrees compared pairwise" if not bad else bad)
 
 
 def morphism(ctx, g):
